@@ -820,9 +820,20 @@ func unexposeName(name string) string {
 	return lowered
 }
 
-// goPredeclared lists Go's predeclared types and constants; an unexported definition
-// named like one of them would shadow it for the rest of the generated package.
+// exposePrefix is exposeName for the fixed prefixes of generated function names (Make, New,
+// MustMake): a prefix is never an identifier of its own, so it is only lowered.
+func exposePrefix(prefix string, settings GenerateSettings) string {
+	if settings.PrivateDefinitions {
+		return strings.ToLower(string(prefix[0])) + prefix[1:]
+	}
+	return prefix
+}
+
+// goPredeclared lists Go's predeclared types and constants, and the builtin functions that
+// generated code calls (copy, len, make, new, panic); an unexported definition named like
+// one of them would shadow it for the rest of the generated package.
 var goPredeclared = map[string]bool{
+	"copy": true, "len": true, "make": true, "new": true, "panic": true,
 	"any": true, "bool": true, "byte": true, "comparable": true, "complex64": true, "complex128": true,
 	"error": true, "float32": true, "float64": true, "int": true, "int8": true, "int16": true,
 	"int32": true, "int64": true, "rune": true, "string": true, "uint": true, "uint8": true,
@@ -858,7 +869,7 @@ func writeMarshalBebop(w *iohelp.ErrorWriter, name string, isEmpty bool, setting
 
 func writeMake(w *iohelp.ErrorWriter, name string, isEmpty bool, settings GenerateSettings) {
 	exposedName := exposeName(name, settings)
-	makeName := exposeName("Make", settings)
+	makeName := exposePrefix("Make", settings)
 	writeLine(w, "func %[2]s%[1]s(r *iohelp.ErrorReader) (%[1]s, error) {", exposedName, makeName)
 	if isEmpty {
 		writeLine(w, "\treturn %s{}, nil", exposedName)
@@ -872,7 +883,7 @@ func writeMake(w *iohelp.ErrorWriter, name string, isEmpty bool, settings Genera
 
 func writeMakeFromBytes(w *iohelp.ErrorWriter, name string, isEmpty bool, settings GenerateSettings) {
 	exposedName := exposeName(name, settings)
-	makeName := exposeName("Make", settings)
+	makeName := exposePrefix("Make", settings)
 	writeLine(w, "func %[2]s%[1]sFromBytes(buf []byte) (%[1]s, error) {", exposedName, makeName)
 	if isEmpty {
 		writeLine(w, "\treturn %s{}, nil", exposedName)
@@ -886,7 +897,7 @@ func writeMakeFromBytes(w *iohelp.ErrorWriter, name string, isEmpty bool, settin
 
 func writeMustMakeFromBytes(w *iohelp.ErrorWriter, name string, isEmpty bool, settings GenerateSettings) {
 	exposedName := exposeName(name, settings)
-	makeName := exposeName("MustMake", settings)
+	makeName := exposePrefix("MustMake", settings)
 	writeLine(w, "func %[2]s%[1]sFromBytes(buf []byte) %[1]s {", exposedName, makeName)
 	if isEmpty {
 		writeLine(w, "\treturn %s{}", exposedName)
